@@ -9,6 +9,6 @@ git apply /tmp/seedwt/out_$P$V.diff || { echo "PATCH FAILS"; exit 3; }
 echo "== $P$V seeded demo: $(PYTHONPATH=$WT/src /venv/bin/python /tmp/seedwt/demo_$P$V.py >/dev/null 2>&1; echo rc=$?)"
 for c in "$@"; do
   out=$(cd /verif && VERIF_EVIDENCE_DIR=/tmp/seed_evidence VERIF_REPO_SRC=$WT/src VERIF_PROCS=6 ./check "$c" --tier quick 2>&1); rc=$?
-  echo "$P$V check=$c rc=$rc $(echo "$out" | grep -c '^VIOLATION') violations; $(echo "$out" | grep -E '^(VIOLATION|DIVERGENCE|KNOWN|MACHINERY|OK|  clauses)' | head -n 4 | tr '\n' '|' | cut -c1-700)"
+  echo "$P$V check=$c rc=$rc $(echo "$out" | grep -c '^VIOLATION') violations; $(echo "$out" | grep -E '^(VIOLATION|DIVERGENCE|KNOWN|MACHINERY|OK|  clauses)' | head -n 8 | tr '\n' '|' | cut -c1-700)"
 done
 git checkout -q -- .
